@@ -256,6 +256,8 @@ def main(argv):
         'rule': 'sim: 1-4 devices x 1-8 SMs x 1-8 sub-cores in four profiles (small 1-3x1-4x1-4; wide: 5-8 sub-cores per SM with blocks of 5-12 warps '
                 'and more blocks than SMs; many: 5-8 SMs per device with 9-14 blocks per kernel; mixed: anything up to 4x8x8); per-device shapes differ in 2/3 of the cases, 1-3 kernels, ragged blocks/warps, '
                 'every fifth case loads its kernels from printed trace files through BenchmarkBuilder with >= 4 launches that all share the launch configuration and one of two kernel names (bodies differ); '
+                'these directories vary the line ends (LF / CRLF list / CRLF everywhere / blank lines, no final newline), kernel-name lines of 1000-60000 bytes and instruction lines up to 45 kB; '
+                'a stagger profile (completion reports of all devices in the same cycle with an empty kernel queue); monitor: kernels, blocks, warps, instructions executed = written by the generator; '
                 'every third case with 0-instruction warps / 0-warp blocks / 0-block kernels, both clock configurations (components 1 Hz with 1 GHz '
                 'connections as nvidia.go, and all 1 GHz); non-trivial = at least 2 thread blocks and 3 warps on at least 2 sub-cores. '
                 'trace: every ~12th case is a group of 3-5 kernel files of ONE directory (shared name + launch configuration, different bodies, Memcpy lines in between) read one after another and re-read in reverse order in the same process; '
@@ -271,6 +273,8 @@ def main(argv):
         'degenerate_sim_cases': sum(1 for c in sim_cases if any(len(k) == 0 or any(len(b) == 0 or 0 in b for b in k) for k in c['kernels'])),
         'full_buffer_cases': sum(1 for c in sim_cases if any(4 in st['bufs'] for st in c.get('final', [])) or c.get('tag') == 'full'),
         'sim_cases_via_trace_files': sum(1 for c in sim_cases if c.get('via_files')),
+        'file_styles': dict(collections.Counter(c.get('file_style', 0) for c in sim_cases if c.get('via_files'))),
+        'max_line_bytes_about': max([c.get('name_len', 0) for c in sim_cases] + [19 * c.get('inst_addrs', 0) for c in sim_cases] + [0]),
         'trace_directory_groups': len({(c['kernel'].get('group'), c['kernel'].get('gsize')) for c in trace_cases if c['kernel'].get('group')}),
         'trace_streams': dict(collections.Counter(c['kernel'].get('tag', '?') for c in trace_cases)),
         'model_mismatches': len(mism1) + len(mism2), 'monitor_failures': len(sim_bad) + len(trace_bad),
